@@ -595,6 +595,10 @@ def _check_eq_hash(ctx, mdl, cls):
     if any(isinstance(n, ast.Call) and call_name(n) == 'len' and n.args and isinstance(n.args[0], ast.Name) and n.args[0].id == 'self'
            for n in ast.walk(e.node)) and '__len__' in cls.methods:
         ef |= _self_fields(cls.methods['__len__'].node)
+    bare = [norm(n._parent) for n in ast.walk(h.node) if isinstance(n, ast.Name) and n.id == 'self' and isinstance(n.ctx, ast.Load)
+            and not isinstance(getattr(n, '_parent', None), ast.Attribute)]
+    ctx.record('R16.7', q, '__hash__ depends only on fields', not bare,
+               detail='' if not bare else '__hash__ uses the object itself (%s): equal objects hash differently' % ', '.join(bare[:3]), where=where(h))
     extra = sorted(hf - ef)
     ctx.record('R16.7', q, 'hash_fields-eq_fields={%s}' % ','.join(extra), not extra,
                detail='' if not extra else '__hash__ reads %s which __eq__ ignores: equal objects can hash differently' % extra,
